@@ -25,6 +25,8 @@ pub struct Opts {
   pub no_creation_date: bool,
   pub single: bool,
   pub stdout: bool,
+  /// write over an existing, longer file with --force
+  pub overwrite: bool,
   pub files: Vec<(String, Vec<u8>)>,
 }
 
@@ -34,7 +36,7 @@ impl Opts {
       "announce": self.announce, "tiers": self.tiers, "comment": self.comment, "source": self.source,
       "nodes": self.nodes.iter().map(|n| n.0.clone()).collect::<Vec<_>>(), "update_url": self.update_url, "name": self.name,
       "p": self.p, "private": self.private, "md5": self.md5, "no_created_by": self.no_created_by, "no_creation_date": self.no_creation_date,
-      "single": self.single, "stdout": self.stdout,
+      "single": self.single, "stdout": self.stdout, "overwrite": self.overwrite,
       "files": self.files.iter().map(|(n, d)| json!([n, hex(d)])).collect::<Vec<_>>(),
     })
   }
@@ -56,6 +58,7 @@ impl Opts {
       no_creation_date: b("no_creation_date"),
       single: b("single"),
       stdout: b("stdout"),
+      overwrite: b("overwrite"),
       files: v.get("files")?.as_array()?.iter().filter_map(|f| Some((f.get(0)?.as_str()?.to_string(), crate::model::unhex(f.get(1)?.as_str()?)?))).collect(),
     })
   }
@@ -85,7 +88,7 @@ impl Opts {
       a.push("--node".into());
       a.push(n.0.clone());
     }
-    for (flag, on) in [("--private", self.private), ("--md5", self.md5), ("--no-created-by", self.no_created_by), ("--no-creation-date", self.no_creation_date)] {
+    for (flag, on) in [("--force", self.overwrite && output != "-"), ("--private", self.private), ("--md5", self.md5), ("--no-created-by", self.no_created_by), ("--no-creation-date", self.no_creation_date)] {
       if on {
         a.push(flag.into());
       }
@@ -135,6 +138,7 @@ fn gen(rng: &mut Rng) -> Opts {
   o.no_creation_date = rng.chance(1, 2);
   o.single = rng.chance(1, 3);
   o.stdout = rng.chance(1, 5);
+  o.overwrite = !o.stdout && rng.chance(1, 4);
   if o.single {
     o.files.push((String::new(), rng.bytes_upto(200)));
   } else {
@@ -180,6 +184,10 @@ fn materialise(sb: &Sandbox, o: &Opts, dir: &str, reverse: bool) {
 fn observe(ctx: &Ctx, o: &Opts) -> Obs {
   let sb = Sandbox::new(&ctx.work, "c05");
   materialise(&sb, o, "run1/in", false);
+  if o.overwrite {
+    // a longer file from an earlier run is in the way
+    sb.write("run1/o.torrent", &b"d7:comment5:stale4:infod6:lengthi0eee".repeat(200));
+  }
   let t0 = now();
   let out = Cmd::args_owned(&ctx.imdl, o.args("in", if o.stdout { "-" } else { "o.torrent" })).cwd(&sb.path("run1")).run();
   let t1 = now();
